@@ -210,8 +210,8 @@ fn placements(n01: u32, n10: u32, f: u32) -> Vec<Fault> {
 pub fn run(ctx: &mut Ctx) {
     ctx.rule = "acknowledged mode, sizes {0,1,seg-1,seg,seg+1,3seg}, 6 NAK procedures (deferred/immediate x delay 0/50 ms/1.5 s), CRC on/off, closure on/off, limit 3, \
 Ta=2 Tn=3 Ti=9 s. A fault-free baseline gives n datagrams per direction; then every placement of F faults from {drop, duplicate(+1 ms, +40 ms), delay(3 ms, 9 ms)} over \
-ordinals 0..n+F of each direction: F=1 exhaustive (quick and thorough), F=2 exhaustive in thorough and proptest-sampled in quick, F=2 with both faults on the same \
-PDU and its retransmission included (ordinals are per direction as emitted). Non-trivial = at least one fault hit a datagram; distinct by the whole scenario."
+ordinals 0..n+F of each direction: F=1 exhaustive; F=2 exhaustive for pairs of drops (quick and thorough) and for pairs of any kinds (thorough), proptest-sampled mixed pairs in quick; \
+both faults may hit a PDU and its retransmission (ordinals are per direction as emitted). Non-trivial = at least one fault hit a datagram; distinct by the whole scenario."
         .into();
     ctx.assumptions = vec![
         "F < limit (3) and the inactivity timeout exceeds ack and NAK timeouts, as the statement requires".into(),
@@ -241,19 +241,32 @@ PDU and its retransmission included (ordinals are per direction as emitted). Non
     ctx.section = "F<=1-exhaustive".into();
     ctx.drive_list(&part, cases, true);
 
-    // F = 2
+    // F = 2: every pair of drops for every configuration (quick and thorough) ...
+    let mut cases = vec![];
+    for (sc, a, b) in &base {
+        let slots: Vec<Fault> = placements(*a, *b, 2).into_iter().filter(|f| f.kind == FaultKind::Drop).collect();
+        for i in 0..slots.len() {
+            for j in i + 1..slots.len() {
+                let mut s = sc.clone();
+                s.faults = vec![slots[i].clone(), slots[j].clone()];
+                cases.push(C02Case { sc: s });
+            }
+        }
+    }
+    ctx.section = "F=2-drops-exhaustive".into();
+    ctx.drive_list(&part, cases, true);
+    // ... and every pair of any kinds in thorough
     if ctx.tier == Tier::Thorough {
         let mut cases = vec![];
-        for (k, (sc, a, b)) in base.iter().enumerate() {
-            // the pair space is large: all pairs for a third of the configurations (rotating with the seed)
-            if (k as u64 + seed) % 3 != 0 {
-                continue;
-            }
+        for (sc, a, b) in base.iter() {
             let slots = placements(*a, *b, 2);
             for i in 0..slots.len() {
                 for j in i + 1..slots.len() {
                     if slots[i].from == slots[j].from && slots[i].ordinal == slots[j].ordinal {
                         continue;
+                    }
+                    if slots[i].kind == FaultKind::Drop && slots[j].kind == FaultKind::Drop {
+                        continue; // done above
                     }
                     let mut s = sc.clone();
                     s.faults = vec![slots[i].clone(), slots[j].clone()];
@@ -261,10 +274,10 @@ PDU and its retransmission included (ordinals are per direction as emitted). Non
                 }
             }
         }
-        ctx.section = "F=2-exhaustive-subset".into();
-        ctx.drive_list(&part, cases, false);
+        ctx.section = "F=2-all-kinds-exhaustive".into();
+        ctx.drive_list(&part, cases, true);
     }
-    let n = ctx.tier.pick(16_000u64, 60_000);
+    let n = ctx.tier.pick(40_000u64, 200_000);
     let base2 = base.clone();
     let strat = (0..base2.len(), any::<u64>(), proptest::collection::vec((any::<bool>(), 0u32..40, 0usize..5), 2..=2)).prop_map(move |(bi, seed, fs)| {
         let (sc, a, b) = &base2[bi];
